@@ -170,6 +170,11 @@ theorem redo_gc_witness (vv : VV) (hcov : vv.equalToOrAfter (tk 2 1 1) = true) :
     simp only [List.filter, hcov, List.foldl]
     decide
 
+/-- repaired `deregisterElement` (instance check): the peer's purge unlinks the live restored node
+    from its parent but keeps its element-map entry -/
+example : ((gpurge W4.b3 [(1, 3), (2, 0)]).h.doc W4.n).isSome = true ∧
+    (gpurge W4.b3 [(1, 3), (2, 0)]).gc = [] := by decide
+
 /-- non-vacuity: the minimum version vector after both clients synced -/
 example : VV.equalToOrAfter [(1, 3), (2, 0)] (tk 2 1 1) = true := by decide
 
